@@ -2176,6 +2176,31 @@ pub fn program(data: &[u8], prof: Profile) -> (Program, Vec<&'static str>) {
             }))),
         );
     }
+    if g.many_ranges {
+        // a range written between two literals at the very start, eleven more in a function that
+        // follows it in the same source text, and the first one used at the very end: whatever the
+        // compiler or the interpreter keeps per literal range must survive everything in between
+        // (all of it is compiled before the first statement runs)
+        g.labels.push("literal_range_held_across_program");
+        let a = 100.0 + (data.len() % 7) as f64;
+        let first = Expr::range(Expr::Num(a), Expr::Num(a + 3.0));
+        let others: Vec<Expr> = (0..11).map(|k| Expr::range(Expr::Num(200.0 + k as f64), Expr::Num(210.0 + 2.0 * k as f64))).collect();
+        main.insert(0, Stmt::var("mr_first", Some(first)));
+        main.insert(
+            1,
+            Stmt::new(StmtKind::Fn(Rc::new(FnDef {
+                name: RefCell::new("mr_others".to_string()),
+                params: vec![],
+                body: Body::Block(vec![Stmt::new(StmtKind::Return(Some(Expr::VecLit(others))))]),
+                kind: FnKind::Function,
+            }))),
+        );
+        if data.len() % 2 == 0 {
+            main.insert(2, Stmt::print(Expr::invoke(Expr::callv("mr_others", vec![]), "len", vec![])));
+        }
+        main.push(Stmt::print(Expr::var("mr_first")));
+        main.push(Stmt::print(Expr::invoke(Expr::invoke(Expr::var("mr_first"), "iter", vec![]), "collect", vec![])));
+    }
     let labels = std::mem::take(&mut g.labels);
     (
         Program {
